@@ -146,6 +146,9 @@ RearrFamily(z) ==
     \cup {R1("full", "func", s, NoAx, 0, 0, t, "-") : t \in {<<2, 3>>, <<3>>}}
     : s \in RShapes}
   \cup {Cfg("linspace", "func", <<>>, <<>>, <<>>, n, NoAx, FALSE, k, 0, <<>>, "-", "rr", "array", NA) : n \in {0, 1}, k \in {1, 4, 5}}
+  \* np.gradient needs at least 4 points along the differentiated axis for its reverse rule
+  \cup UNION {{R1("gradient", "func", s, AxInt(a), 0, 0, <<>>, "axis") : a \in AxisInts(Len(s))} \cup {R1("gradient", "func", s, NoAx, 0, 0, <<>>, "-")}
+              : s \in {<<5>>, <<4>>, <<2, 4>>, <<4, 2>>, <<4, 5>>}}
 
 
 \* ---------------------------------------------------------------- joins: several operands, some of them the differentiated value
